@@ -112,6 +112,59 @@ def _t_kwargs_calls(srcs):
         R(defs[pth]).visit(tree)
 
 
+def _t_kwonly(srcs):
+    """modernised signatures: in every module-level function and method the parameters that have a default become keyword-only
+    (`def f(a, b, *, c=1, d=None)`); every call inside the tree that passed one of them by position (calls by plain name to a
+    function of the same file, `utils.f` / `sempler.utils.f`, and method calls whose name is unique among the tree's methods)
+    is re-spelled with keywords"""
+    import ast
+    defs = {}          # path -> {name: (original positional names, number kept positional)}
+    methods = {}       # method name -> [(names without self, kept)]
+    for pth, tree in srcs.items():
+        defs[pth] = {}
+        for n in tree.body:
+            fns = [(n, False)] if isinstance(n, ast.FunctionDef) else [(m, True) for m in n.body if isinstance(m, ast.FunctionDef)] if isinstance(n, ast.ClassDef) else []
+            for fn, is_m in fns:
+                a = fn.args
+                if a.vararg or a.kwarg or a.kwonlyargs or a.posonlyargs or not a.defaults or fn.decorator_list or fn.name == "__init__":
+                    continue        # (constructors are called through super().__init__(...) / Class(...): left as they are)
+                names = [x.arg for x in a.args]
+                keep = len(a.args) - len(a.defaults)
+                if is_m:
+                    methods.setdefault(fn.name, []).append((names[1:], keep - 1))
+                else:
+                    defs[pth][fn.name] = (names, keep)
+                a.kwonlyargs = a.args[keep:]
+                a.kw_defaults = list(a.defaults)
+                a.args = a.args[:keep]
+                a.defaults = []
+    utils = next((v for k, v in defs.items() if k.endswith("sempler/utils.py")), {})
+
+    class R(ast.NodeTransformer):
+        def __init__(self, local):
+            self.local = local
+
+        def visit_Call(self, node):
+            self.generic_visit(node)
+            sig = None
+            if isinstance(node.func, ast.Name):
+                sig = self.local.get(node.func.id)
+            elif isinstance(node.func, ast.Attribute) and ast.unparse(node.func.value) in ("utils", "sempler.utils"):
+                sig = utils.get(node.func.attr)
+            elif isinstance(node.func, ast.Attribute) and len(methods.get(node.func.attr, ())) == 1 and node.func.attr not in ("copy", "sum", "all", "any", "append"):
+                sig = methods[node.func.attr][0]
+            if sig is None or any(isinstance(a_, ast.Starred) for a_ in node.args):
+                return node
+            names, keep = sig
+            if len(node.args) > keep and len(node.args) <= len(names):
+                extra = node.args[keep:]
+                node.keywords = [ast.keyword(arg=nm, value=v) for nm, v in zip(names[keep:], extra)] + list(node.keywords)
+                node.args = node.args[:keep]
+            return node
+    for pth, tree in srcs.items():
+        R(defs[pth]).visit(tree)
+
+
 def _t_strip_docs_annotate(srcs):
     """docstrings removed, every parameter annotated with `object`, every function given a return annotation"""
     import ast
@@ -271,7 +324,7 @@ def _t_accept_lists(srcs):
                         n.body[k:k] = ast.parse("if not isinstance(%s, np.ndarray):\n    %s = np.array(%s)\n" % (a.arg, a.arg, a.arg)).body
 
 
-TREE_TRANSFORMS = {"@coerce_params": _t_coerce_params, "@accept_lists": _t_accept_lists, "@early_exit": _t_early_exit, "@numpy_alias": _t_numpy_alias, "@kwargs_calls": _t_kwargs_calls, "@strip_docs_annotate": _t_strip_docs_annotate, "@logging": _t_logging, "@traced": _t_traced,
+TREE_TRANSFORMS = {"@coerce_params": _t_coerce_params, "@accept_lists": _t_accept_lists, "@early_exit": _t_early_exit, "@numpy_alias": _t_numpy_alias, "@kwargs_calls": _t_kwargs_calls, "@strip_docs_annotate": _t_strip_docs_annotate, "@logging": _t_logging, "@traced": _t_traced, "@kwonly": _t_kwonly,
                    "@shim": _t_shim}
 
 
